@@ -227,6 +227,11 @@ func NewBlockResultsMeta(results *consensus.BlockResults) (*BlockResultsMeta, er
 	if err := cbor.Unmarshal(results.Meta, &meta); err != nil {
 		return nil, fmt.Errorf("malformed block results metadata: %w", err)
 	}
+	for _, result := range meta.TxsResults {
+		if result == nil {
+			return nil, fmt.Errorf("malformed block results metadata: missing transaction result")
+		}
+	}
 
 	return &meta, nil
 }
